@@ -54,3 +54,19 @@ impl SmallRng {
             [nd.os_rng.smallrng] ambient_nondeterminism_allowed(),
     { unimplemented!() }
 }
+
+// ---- RangeInclusive::clone (World::register clones Config::ephemeral_ports; same contract as prelude/seedflow_std.rs) ----
+pub assume_specification<Idx: Clone> [<RangeInclusive<Idx> as Clone>::clone] (r: &RangeInclusive<Idx>) -> (c: RangeInclusive<Idx>)
+    ensures c@ == r@;
+
+// ---- IndexMap::keys (same contract as prelude/fs_indexset.rs, which cannot be combined with indexset.rs) -----------------
+pub use vstd::std_specs::iter::IteratorSpec;
+pub open spec fn seq_refs<'a, T>(s: Seq<T>) -> Seq<&'a T> { Seq::new(s.len(), |i: int| &s[i]) }
+impl<K, V> IndexMap<K, V> {
+    // keys(): the keys in insertion order.  MODELLED as a slice iterator over the key sequence (the real
+    // `indexmap::map::Keys` walks the entries Vec in order), so that Verus' `for` support applies.
+    #[verifier::external_body]
+    pub fn keys(&self) -> (r: core::slice::Iter<'_, K>)
+        ensures r.remaining() == seq_refs(im_keys(self@)), r.obeys_prophetic_iter_laws(), r.decrease() is Some, r.will_return_none(),
+    { unimplemented!() }
+}
